@@ -33,6 +33,21 @@ def migLine (line : String) : String :=
       let out := copyLogs { emptyGuard := Generated.copyLogsEmptyGuard } src { first := 0, entries := [] } bbI (parseCancel cancel)
       let sizes := ",".intercalate (out.batches.map (fun b => toString b.length))
       s!"{resS out.res} {out.dst.firstIndex} {out.dst.lastIndex} {out.dst.entries.length} {logDigest out.dst.entries} batches={sizes} progress={if prog == "p0" then "nil" else "closed"}"
+  | "copydstfail" :: bb :: k :: first :: toks =>
+    -- the destination rejects its k-th StoreLogs: the error is returned, the destination holds the batches before it
+    match toks.mapM parseLogTok with
+    | none => "bad-op"
+    | some logs =>
+      let src : Src := { first := nat! first, entries := logs }
+      let bbI : Int := if bb.startsWith "-" then - (Int.ofNat (nat! (bb.drop 1).toString)) else Int.ofNat (nat! bb)
+      let out := copyLogs { emptyGuard := Generated.copyLogsEmptyGuard } src { first := 0, entries := [] } bbI none
+      let kk := nat! k
+      if kk ≥ 1 ∧ kk ≤ out.batches.length then
+        let kept := (out.batches.take (kk - 1)).flatten
+        let fi := match kept.head? with | some l => l.index | none => 0
+        let la := match kept.getLast? with | some l => l.index | none => 0
+        s!"err {fi} {la} {kept.length} {logDigest kept}"
+      else s!"{resS out.res} {out.dst.firstIndex} {out.dst.lastIndex} {out.dst.entries.length} {logDigest out.dst.entries}"
   | ["copyfail", _, prog] =>
     -- a failing source: the error is returned, the progress channel is closed all the same (deferred close)
     s!"err progress={if prog == "p0" then "nil" else "closed"}"
